@@ -157,6 +157,8 @@ fn construct(r: &mut Rng) -> Val {
 }
 
 static HANDOVERS: std::sync::atomic::AtomicU64 = std::sync::atomic::AtomicU64::new(0);
+/// value of HANDOVERS when the current program began
+static PROGRAM_START: std::sync::atomic::AtomicU64 = std::sync::atomic::AtomicU64::new(0);
 
 fn step(r: &mut Rng, live: &mut Vec<Val>, tx: &mpsc::Sender<Val>) {
     if live.is_empty() || (live.len() < 6 && r.below(3) == 0) {
@@ -182,8 +184,13 @@ fn step(r: &mut Rng, live: &mut Vec<Val>, tx: &mpsc::Sender<Val>) {
                     let before = arc.as_ref().map(|a| Arc::strong_count(a));
                     let s: String = v.into_owned();
                     assert_eq!(s, model);
+                    // (exact only while the other thread holds nothing of this program: once a value
+                    // has been handed over, its clones there come and go concurrently; the closing
+                    // check of the program covers those)
                     if let (Some(a), Some(b)) = (arc.as_ref(), before) {
-                        assert_eq!(Arc::strong_count(a), b - 1, "into_owned on a shared value must give its reference back");
+                        if HANDOVERS.load(std::sync::atomic::Ordering::Relaxed) == PROGRAM_START.load(std::sync::atomic::Ordering::Relaxed) {
+                            assert_eq!(Arc::strong_count(a), b - 1, "into_owned on a shared value must give its reference back");
+                        }
                     }
                     live.push(Val::S { v: SharedString::from_owned(s), model, arc: None });
                 }
@@ -248,6 +255,7 @@ fn step(r: &mut Rng, live: &mut Vec<Val>, tx: &mpsc::Sender<Val>) {
 }
 
 fn program(seed: u64) {
+    PROGRAM_START.store(HANDOVERS.load(std::sync::atomic::Ordering::Relaxed), std::sync::atomic::Ordering::Relaxed);
     let mut r = Rng(seed.wrapping_mul(0xA24BAED4963EE407) ^ 0x5151);
     let (tx, rx) = mpsc::channel::<Val>();
     let consumer = std::thread::spawn(move || {
